@@ -226,6 +226,18 @@ func rulePolicyDerivation(c *Ctx, rule string) {
 			ok = ok && n > 0
 		}
 		c.ob(rule, fn, "a pool annotation forces the never policy", nil, ok, "from the pool != \"\" edge every return yields ReleasePolicyNever")
+		// ... and nothing else is ever returned for a pool pod: a return of anything but Never is reachable only through
+		// the pool == "" edge or the no-annotations edges
+		noPool := guardEdges(fn, predEq(func(v ssa.Value) bool { return isResultOf(v, 0, constPkg+".GetPool") }, func(v ssa.Value) bool { s, ok := constStringVal(v); return ok && s == "" }))
+		noAnn := guardEdges(fn, predEq(func(v ssa.Value) bool { return sameParam(v, fn.Params[0]) || pathEndsWith(v, "Annotations") }, isNilConst))
+		r := reachFromEntry(fn, newCut().edge(noPool...).edge(noAnn...))
+		okOnly := len(noPool) == 1
+		for _, ret := range returns(fn) {
+			if r.has(ret) && !isPolicyConst(retVal(ret, 0), 2) {
+				okOnly = false
+			}
+		}
+		c.ob(rule, fn, "only a pod without pool annotation gets a policy other than never", nil, okOnly, "a return of anything but ReleasePolicyNever is reachable only through `pool == \"\"` or the no-annotations edges (the release-policy annotation cannot override a named pool)")
 		cv := calls(fn, constPkg+".ConvertReleasePolicy")
 		okA := len(cv) == 1
 		if okA {
